@@ -49,6 +49,7 @@ type Query {
   echo(s: String = "d", f: Filter): String
   count: Int!
   color(c: Color = RED): Color
+  need(n: Int! = 1): Int!
 }
 type Mutation { a(n: Int): Int  b: Person  c: Int!  d: Int }
 type Subscription { tick: Int  ping: Person }
@@ -78,7 +79,14 @@ def _outcome(ctx, root, info):
         return None
     if oc[0] == "error":
         raise ResolverError(oc[1], extensions=oc[2] if len(oc) > 2 else None)
+    if oc[0] == "shared-error":
+        # ONE error object per message for the life of the process: a resolver raising a pre-built instance (module-level constant) at several
+        # positions and in several requests - every position still gets its own error, path and location
+        raise _SHARED_ERRORS.setdefault(oc[1], ResolverError(oc[1]))
     raise RuntimeError(oc[1])
+
+
+_SHARED_ERRORS = {}
 
 
 def world_resolver(root, ctx, info, **args):
@@ -371,6 +379,9 @@ OPERATIONS = [
     ("{ named { tag } pet { ... on Named { tag } } owned { ... on Named { tag } } }", {}),
     ("query ($p: String, $q: String = \"q\") { named { tag(prefix: $p) t2: tag(prefix: $q) ...T } people { best { ...T } pets { ...T } } } fragment T on Named { t3: tag }", {}),
     ("{ people { pets { ... on Named { tag } ... on Dog { l: tag(loud: true) } } best { ... on Named { tag(prefix: \"x\") } } } me { tag } }", {}),
+    # argument coercion failing at execution time (explicit null for a variable with a default) on a NON-NULL field: one error for that position
+    ("query ($n: Int = 1) { need(n: $n) count me { name } }", {"n": None}),
+    ("query ($n: Int = 1) { a: need(n: $n) b: need(n: 2) }", {"n": None}),
     ("mutation { a(n: 1) b { name } c d }", {}),
     ("mutation M($n: Int = 2) { x: a(n: $n) y: a(n: 3) d }", {}),
 ]
@@ -406,9 +417,16 @@ def worlds_for(schema, query, variables, operation_name=None, with_boom=False, l
             # a resolver result the leaf type cannot serialise: not a field error - the whole request fails, in every configuration
             if getattr(inner, "name", None) in ("Int", "Color"):
                 out.append(("badleaf@%s" % (path,), {path: ("value", "NOT_A_MEMBER")}))
+    # the same error instance raised at two positions (first and last resolved leaf, and two neighbours): fixed members, never sampled away
+    leaves = [p for p, t in paths if not any(q[:len(p)] == p and q != p for q, _t in paths)]
+    fixed = []
+    if len(leaves) >= 2:
+        fixed.append(("shared-error@%s+%s" % (leaves[0], leaves[-1]), {leaves[0]: ("shared-error", "S1"), leaves[-1]: ("shared-error", "S1")}))
+        fixed.append(("shared-error@%s+%s" % (leaves[0], leaves[1]), {leaves[0]: ("shared-error", "S2"), leaves[1]: ("shared-error", "S2")}))
     if limit is not None and len(out) > limit:
         step = len(out) / float(limit)
         out = [out[int(i * step)] for i in range(limit)]
+    out[1:1] = fixed
     return name, out
 
 
